@@ -1,6 +1,7 @@
 package mpath
 
 import (
+	"math/big"
 	"reflect"
 	"strings"
 
@@ -43,37 +44,19 @@ func convertToDecimalIfNumberAndCheck(val any) (wasNumber bool, out decimal.Deci
 		return
 	}
 
-	switch outType := val.(type) {
-	case string:
+	switch v.Kind() {
+	case reflect.String:
 		var err error
-		out, err = decimal.NewFromString(outType)
+		out, err = decimal.NewFromString(v.String())
 		if err != nil {
 			return false, decimal.Zero
 		}
-	case int:
-		out = decimal.NewFromInt(int64(outType))
-	case int8:
-		out = decimal.NewFromInt(int64(outType))
-	case int16:
-		out = decimal.NewFromInt(int64(outType))
-	case int32:
-		out = decimal.NewFromInt(int64(outType))
-	case int64:
-		out = decimal.NewFromInt(int64(outType))
-	case uint:
-		out = decimal.NewFromInt(int64(outType))
-	case uint8:
-		out = decimal.NewFromInt(int64(outType))
-	case uint16:
-		out = decimal.NewFromInt(int64(outType))
-	case uint32:
-		out = decimal.NewFromInt(int64(outType))
-	case uint64:
-		out = decimal.NewFromInt(int64(outType))
-	case float32:
-		out = decimal.NewFromFloat(float64(outType))
-	case float64:
-		out = decimal.NewFromFloat(outType)
+	case reflect.Int, reflect.Int8, reflect.Int16, reflect.Int32, reflect.Int64:
+		out = decimal.NewFromInt(v.Int())
+	case reflect.Uint, reflect.Uint8, reflect.Uint16, reflect.Uint32, reflect.Uint64:
+		out = decimal.NewFromBigInt(new(big.Int).SetUint64(v.Uint()), 0)
+	case reflect.Float32, reflect.Float64:
+		out = decimal.NewFromFloat(v.Float())
 	}
 
 	wasNumber = true
@@ -236,31 +219,8 @@ func getFieldValueByNameFromStruct(identName string, structValue reflect.Value) 
 		if strings.EqualFold(structFieldName, identName) {
 			out = structValue.Field(fn).Interface()
 
-			switch outType := out.(type) {
-			case float64:
-				out = decimal.NewFromFloat(outType)
-			case float32:
-				out = decimal.NewFromFloat(float64(outType))
-			case int:
-				out = decimal.NewFromInt(int64(outType))
-			case int8:
-				out = decimal.NewFromInt(int64(outType))
-			case int16:
-				out = decimal.NewFromInt(int64(outType))
-			case int32:
-				out = decimal.NewFromInt(int64(outType))
-			case int64:
-				out = decimal.NewFromInt(int64(outType))
-			case uint:
-				out = decimal.NewFromInt(int64(outType))
-			case uint8:
-				out = decimal.NewFromInt(int64(outType))
-			case uint16:
-				out = decimal.NewFromInt(int64(outType))
-			case uint32:
-				out = decimal.NewFromInt(int64(outType))
-			case uint64:
-				out = decimal.NewFromInt(int64(outType))
+			if _, ok := out.(string); !ok {
+				out = convertToDecimalIfNumber(out)
 			}
 
 			return out, true
